@@ -50,8 +50,11 @@ class C14(Property):
                     for i in range(1, n + 1):
                         nat[i] = rng.random() < 0.4
                 s = nu.Scenario()
+                # cipher configuration of the whole mesh: the usual list, unencrypted only ("plain" on every node: the connection
+                # objects then never get a crypto core), or plain allowed next to ciphers
+                algos = rng.choice([nu.ALG, nu.ALG, "p|-", "p|1:44160000,3:43c80000"])
                 for i in range(1, n + 1):
-                    s.node(i, mode="tun-router", claims=["%s/24" % bytes([10, 0, i, 0]).hex()], nat=nat[i])
+                    s.node(i, mode="tun-router", claims=["%s/24" % bytes([10, 0, i, 0]).hex()], nat=nat[i], algos=algos)
                 for (a, b), o in zip(edges, orients):
                     # an address-filtering NAT only lets replies in: the NATed end has to dial; two NATed ends dial each other
                     if nat[a] and not nat[b]:
